@@ -53,7 +53,7 @@ pub fn gen_c05(rng: &mut Rng, idx: u64) -> H1Scenario {
     cfg.write_buf = *rng.pick(&[1usize, 64, 1024, 8192, 32768, 131072]);
     let scale = *rng.pick(&[1usize, 1, 2, 4]);
     let mut gates = vec![];
-    let seg = *rng.pick(&[1024usize, 8192, 16384, 65536]);
+    let seg = *rng.pick(&[1000usize, 1024, 8191, 16384, 65536]);
     let window = *rng.pick(&[16_384u32, 65_536, 262_144]);
     let mut conn = ConnScript {
         reqs: vec![],
@@ -65,6 +65,7 @@ pub fn gen_c05(rng: &mut Rng, idx: u64) -> H1Scenario {
         grants: vec![],
         progs: vec![],
         start_ms: 0,
+        writes_blocked_after_grants: false,
     };
     conn.sock.read_mode = match rng.below(4) {
         0 => CapMode::Rand(300),
@@ -129,8 +130,17 @@ pub fn gen_c05(rng: &mut Rng, idx: u64) -> H1Scenario {
             let n = 20_000 * scale;
             gates.push(GateEv { at_ms: 2000 });
             let mut raw = Vec::new();
+            // optionally every k-th request carries a small body, so that socket segments end
+            // inside bodies and the "current payload" state is exercised while the queue is full
+            let with_bodies = if rng.chance(2, 3) { Some(rng.range(1, 8)) } else { None };
+            let blen = *rng.pick(&[10usize, 500, 3000]);
+            let n = if with_bodies.is_some() && blen > 10 { n / 20 } else { n };
+            let body: String = (0..blen).map(|j| (b'0' + (j % 10) as u8) as char).collect();
             for i in 0..n {
-                raw.extend_from_slice(format!("GET /r/{} HTTP/1.1\r\nhost: sim\r\n\r\n", i + 1).as_bytes());
+                match with_bodies {
+                    Some(k) if i > 0 && i % k == 0 => raw.extend_from_slice(format!("POST /r/{} HTTP/1.1\r\nhost: sim\r\ncontent-length: {}\r\n\r\n{}", i + 1, blen, body).as_bytes()),
+                    _ => raw.extend_from_slice(format!("GET /r/{} HTTP/1.1\r\nhost: sim\r\n\r\n", i + 1).as_bytes()),
+                }
             }
             // only the first few are described as GT (the oracle here is about volume)
             conn.reqs = vec![req(1, "GET", Framing::None, 0)];
